@@ -152,6 +152,9 @@ class FakeServer:
             cut = sc.get('ctrl_cut')
             if cut is not None:
                 cli.sendall(msg[:cut])
+                # a server that dies here takes its listening control socket with it (a listener left open would let the
+                # client connect to nobody and wait - that is a silent server, not a dying one)
+                ctrl.close()
                 self._close(cli, sc.get('ctrl_end', 'fin'))
                 self.log.append(('ctrl-addr-cut', cut))
                 return
